@@ -451,7 +451,10 @@ func TestVerifNonce(t *testing.T) {
 				defer wg.Done()
 				xs := make([]vnRaw, 0, len(js))
 				ready.Add(1)
-				for start.Load() == 0 { // spin: everybody is on a CPU when the race starts
+				for spins := 0; start.Load() == 0; spins++ { // spin: everybody is on a CPU when the race starts
+					if spins > 1<<16 {
+						runtime.Gosched() // an overloaded machine: do not burn the CPU the others need
+					}
 				}
 				for k, j := range js {
 					if k > 0 && j.yield {
